@@ -138,10 +138,13 @@ def gen_plan(pid, seed, idx, profile):
             disturbed = True
         elif kind == "queue":
             m = r.choice([1, 1, 2, 5, 17, 40])
-            dest = r.choice([None, 0, 1, 2])
+            dest = r.choice([None, 0, 1, 2, ["10.0.0.11", 30491], ["10.0.0.11", 30492]])  # incl. two more endpoints on peer 0's host
             for q in range(m):
                 spec = ["offer", 0x6000 + r.randrange(3), q + 1, 1, q, r.choice([0, 3])] if r.random() < 0.7 else ["suback", 0x6000, 1, 1, q + 1, 3, q % 16]
-                op = {"k": "call", "t": t, "f": "queue_send", "a": [spec, dest]}
+                d2 = dest
+                if q % 3 == 2 and isinstance(dest, (int, list)) and r.random() < 0.5:
+                    d2 = r.choice([0, ["10.0.0.11", 30491]])  # interleave a second destination inside the same window
+                op = {"k": "call", "t": t, "f": "queue_send", "a": [spec, d2]}
                 if ph != "io":
                     op["ph"] = ph
                 ops.append(op)
